@@ -85,6 +85,9 @@ type Plan struct {
 	BatchSize int      `json:"batchSize,omitempty"` // 0 = production value
 	CacheSize int      `json:"cacheSize,omitempty"` // 0 = 1024
 	MaxSteps  int      `json:"maxSteps,omitempty"`
+	// DeathGrace: how many more steps requests that are already past their persistence wait may
+	// take after the batch runner died (a dying process does not stop its goroutines atomically).
+	DeathGrace int `json:"deathGrace,omitempty"`
 	// RestartBefore: op indexes in front of which the process is stopped and started again.
 	RestartBefore []int `json:"restartBefore,omitempty"`
 	NoLock        bool  `json:"-"`
@@ -673,6 +676,7 @@ func runInBubble(plan *Plan, res *Result) {
 	}
 	next := 0
 	restarted := map[int]bool{}
+	grace := map[int]int{}
 	answered := func(i int) bool {
 		r := res.Responses[i]
 		if r == nil {
@@ -696,6 +700,50 @@ func runInBubble(plan *Plan, res *Result) {
 		runnerDead := s.cur.runnerDead && !s.cur.dead
 		s.mu.Unlock()
 		crashNow := contains(plan.CrashAt, s.step)
+		if runnerDead && !crashNow && grace[s.cur.id] < plan.DeathGrace {
+			// the runner has panicked, the process is going down: goroutines that are already
+			// past (or exactly at the end of) their wait for persistence may still make progress
+			s.mu.Lock()
+			var late []*gate
+			for _, p := range s.parked {
+				if p.ci.gen != s.cur || p.ci.id < 0 {
+					continue
+				}
+				switch p.point {
+				case "exec.wait", "run.wait":
+					select {
+					case <-p.await:
+						late = append(late, p)
+					default:
+					}
+				case "run.persisted", "monitor.publish":
+					late = append(late, p)
+				}
+			}
+			s.mu.Unlock()
+			if len(late) > 0 {
+				sort.Slice(late, func(i, j int) bool { return late[i].seq < late[j].seq })
+				c := 0
+				if s.step < len(plan.Choices) {
+					c = plan.Choices[s.step]
+				}
+				g := late[c%len(late)]
+				s.mu.Lock()
+				rest := s.parked[:0:0]
+				for _, p := range s.parked {
+					if p != g {
+						rest = append(rest, p)
+					}
+				}
+				s.parked = rest
+				s.event(g.ci.gen.id, g.ci.id, "gate", g.point+" (after runner death)")
+				grace[s.cur.id]++
+				s.step++
+				s.mu.Unlock()
+				g.ch <- gateResult{}
+				continue
+			}
+		}
 		if runnerDead || crashNow {
 			g := s.cur
 			s.mu.Lock()
